@@ -14,7 +14,7 @@ from sim.core import H, Violation, digest
 ID = "C05"
 LEVEL = "exploration"
 BATCH = 4
-QUICK_WORLDS = 128
+QUICK_WORLDS = 192
 THOROUGH_BUDGET_S = 900
 RUN_TIMEOUT = 180
 RULE = ("world = (model class accepting optimization_options, tiny instance satisfying the model's documented assumptions) from the seed; "
@@ -87,7 +87,7 @@ def rand_flags(rng, cname):
 
 def gen_world(seed, tier):
     rng = random.Random(H(seed, "c05"))
-    w = mr.gen_world(seed, CLASSES, want_constraints=0.5, node_p=0.15, tag="c05w", length_cov_p=0.4)
+    w = mr.gen_world(seed, CLASSES, want_constraints=0.5, node_p=0.15, tag="c05w", length_cov_p=0.6)
     a = w["args"]
     # keep inside the documented assumptions of the safety optimisations
     a.pop("solution_weights_superset", None)
@@ -109,6 +109,14 @@ def plans(world, info, seed, tier):
     specs = []
     for _ in range(2 if tier == "quick" else 4):
         flags = rand_flags(rng, world["class"])
+        a_ = world["args"]
+        if (a_.get("subpath_constraints") or a_.get("subset_constraints")) and rng.random() < 0.6:
+            # constraints present: exercise the flags that turn safety information into constraints
+            if world["class"] in models.DAG_CLASSES:
+                flags["optimize_with_safety_as_subpath_constraints"] = True
+                flags.pop("optimize_with_subpath_constraints_as_safe_sequences", None)
+            else:
+                flags["optimize_with_safe_sequences"] = True
         sim = {"latency": "instant", "reply": "canonical", "reply_seed": rng.randrange(1 << 30), "faults": []}
         if rng.random() < 0.5:
             sim["faults"] = [{"at": rng.randrange(0, 3), "kind": rng.choice(["interrupt", "time_limit_no_incumbent", "time_limit_with_incumbent", "unknown"])}]
